@@ -67,6 +67,20 @@ func (ex *Exec) specBool(fr *Frame, st *State, c *Clause) string {
 	return t.S
 }
 
+// specBoolIfLive is specBool, except that a clause naming a local that is not in scope in st reports live == false.
+func (ex *Exec) specBoolIfLive(fr *Frame, st *State, c *Clause) (g string, live bool) {
+	defer func() {
+		if r := recover(); r != nil {
+			if se, ok := r.(specErr); ok && strings.Contains(se.msg, "is not live here") {
+				g, live = "", false
+				return
+			}
+			panic(r)
+		}
+	}()
+	return ex.specBool(fr, st, c), true
+}
+
 func (ex *Exec) specTerm(fr *Frame, st *State, c *Clause) Term {
 	env := ex.envFor(fr, st)
 	return env.evalTerm(c.Expr, nil)
